@@ -606,9 +606,31 @@ def _gen_spec_once(rng, pf):
             if first["max"] is not None and first["max"] <= 0:
                 first["max"] = None
 
+    # proportions of a plain junction typed with six decimals (thirds as 0.333333, ...): they sum to 1 only up to ~1e-6, and the
+    # junction still passes on everybody who arrives
+    near_one = set()
+    for j in juncs:
+        outs = [(a, b) for (a, b) in trans if a == j]
+        pj = [x for k in outs for x in trans[k] if x != ">"]
+        if any(trans[k] == [">"] for k in outs) or len(pj) < 2 or rng.random() > 0.25:
+            continue
+        pjp = [[q for q in pars if q["name"] == x][0] for x in pj]
+        if any(q["function"] is not None or not q["db"] or q["max"] is not None for q in pjp):
+            continue
+        for pop in pops:
+            w = rng.dirichlet(np.ones(len(pj))) if rng.random() < 0.6 else np.full(len(pj), 1.0 / len(pj))
+            w = [float(np.round(x, 6)) for x in w]
+            if abs(sum(w) - 1.0) == 0.0:
+                w[0] = float(np.round(w[0] + 1e-6, 6))
+            for x, v in zip(pj, w):
+                values.setdefault(x, {})[pop] = {"a": v}
+        near_one.update(pj)
+
     yfactors = {}
     if rng.random() < pf["p_yfactor"]:
         for p in pars:
+            if p["name"] in near_one:
+                continue
             if p["db"] and not p["timed"] and p["format"] != "duration" and rng.random() < 0.3:
                 yfactors[p["name"]] = {pop: _choice(rng, [0.3, 1.0, 2.5] if p["format"] == "proportion" else [0.0, 0.3, 1.0, 2.5]) for pop in pops}
             elif p["db"] and (p["timed"] or p["format"] == "duration") and rng.random() < 0.5:
@@ -618,7 +640,7 @@ def _gen_spec_once(rng, pf):
     meta_yfactors = {}
     if rng.random() < pf["p_yfactor"]:
         for p in pars:
-            if p["db"] and not p["timed"] and p["format"] != "duration" and rng.random() < 0.2:
+            if p["db"] and not p["timed"] and p["format"] != "duration" and p["name"] not in near_one and rng.random() < 0.2:
                 meta_yfactors[p["name"]] = _choice(rng, [0.5, 1.5, 2.0])
         for c in comps:
             if c["db"] and c["kind"] == "ord" and rng.random() < 0.3:
